@@ -113,7 +113,7 @@ Section Events.
     assert (Hq : (s_next_id s = i -> pubq p = false) -> J (r_s (user_event cfg s p t)) g).
     { intros Hk. eapply quiet_J; [|exact HJ]. apply user_event_quiet; [apply wfs_pc; exact HW|exact Hk]. }
     destruct (g_ph g) eqn:Eph.
-    2-8: apply Hq; intros E; exfalso; unfold DeliveryWireDefs.J in HJ; rewrite Eph in HJ; destruct HJ as [Hlt _]; lia.
+    2-9: apply Hq; intros E; exfalso; unfold DeliveryWireDefs.J in HJ; rewrite Eph in HJ; destruct HJ as [Hlt _]; lia.
     destruct ((s_next_id s =? i) && pubq p) eqn:Eb; [|apply Hq; intros E; apply N.eqb_eq in E; rewrite E in Eb; exact Eb].
     apply andb_true_iff in Eb. destruct Eb as [En Ep]. apply N.eqb_eq in En.
     destruct p as [ | |pb| | | | | | | | | | | | ]; try discriminate. cbn in Ep, Hsub.
@@ -143,7 +143,7 @@ Section Events.
     s_ppub s = [] -> s_cur s = None -> s_st s <> Connected -> J s g -> J s (mkG false (g_sub g) (closed_ph (g_ph g))).
   Proof.
     intros Ep Ec Hst. unfold DeliveryWireDefs.J, DeliveryWireDefs.JP, DeliveryWireDefs.PJ. cbn [g_ph g_sub g_sp].
-    destruct (g_ph g) as [| |pid d|pid|pid|pid|pid|pid] eqn:Eph; cbn [closed_ph]; try exact (fun H => H).
+    destruct (g_ph g) as [| |pid d|pid|pid|pid|pid|pid|] eqn:Eph; cbn [closed_ph]; try exact (fun H => H).
     - (* GCur: impossible *)
       intros [Hlt H]. destruct d; (split; [exact Hlt|]); intros o Ho; destruct (H o Ho) as (pb & _ & _ & _ & Hc & _); congruence.
     - intros [Hlt H]. split; [exact Hlt|]. intros o Ho. destruct (H o Ho) as (pb & _ & _ & _ & Hc & _).
@@ -204,7 +204,7 @@ Section Events.
     assert (Hl : forall x, In x l -> exists p, In (p, x) (s_ppub s)).
     { intros x Hx. unfold l in Hx. apply in_map_iff in Hx. destruct Hx as ([p y] & E & Hin). cbn in E. subst y.
       apply filter_In in Hin. exists p. tauto. }
-    unfold DeliveryWireDefs.J in *. destruct (g_ph g) as [| |pid d|pid|pid|pid|pid|pid] eqn:Eph; cbn [closed_ph g_ph].
+    unfold DeliveryWireDefs.J in *. destruct (g_ph g) as [| |pid d|pid|pid|pid|pid|pid|] eqn:Eph; cbn [closed_ph g_ph].
     { (* not a QoS 1/2 publish *)
       intros o' Ho'. destruct (Ops _ _ Ho') as (o & Ho & _ & Hp). rewrite Hp. destruct (mem i l); rewrite ?pubq_with_dup; eapply HJ; exact Ho. }
     all: destruct HJ as [Hlt HJ]; unfold DeliveryWireDefs.JP in *; cbn [g_sub g_ph g_sp].
@@ -255,6 +255,7 @@ Section Events.
     - (* GRelCur *)
       destruct HP as (P1 & P2 & P3 & P4 & (P5 & P6 & P7) & P8). rewrite (Hnl P4) in R6. splits; auto; try congruence; try (intros p0; rewrite Pp; intros []); try (intros Hc; congruence); try lia.
       left. rewrite Rq, (cur_requeued_self s o pb HW P1 Ho Epb); [left; reflexivity|congruence|congruence|exact P4].
+    - (* GGone *) destruct HP.
   Qed.
 
   (* ---- reset: every operation is gone ---- *)
@@ -264,7 +265,7 @@ Section Events.
   Proof.
     intros HW Hn HJ. destruct (reset_spec cfg s HW) as (_ & _ & _ & Eops & _).
     apply J_gone; [|unfold getop; rewrite Eops; reflexivity].
-    cbn [g_ph]. unfold DeliveryWireDefs.J in HJ. destruct (g_ph g) as [| |pid d|pid|pid|pid|pid|pid]; cbn [closed_ph]; try congruence.
+    cbn [g_ph]. unfold DeliveryWireDefs.J in HJ. destruct (g_ph g) as [| |pid d|pid|pid|pid|pid|pid|]; cbn [closed_ph]; try congruence.
     all: intros _; destruct HJ as [Hlt _]; lia.
   Qed.
 
